@@ -4,6 +4,7 @@
 //! trusted: R15 (deep slice): execute_locked_write: the block executed under the per-key write lock, verbatim as a function of the guarded counter (the RwLock write guard is taken as `&mut u64`), the version and the callback; clean_locks and the file operations in the callbacks (rename of the temporary file, fsync, remove_file) are dropped and not claimed; R7: `callback().map(|_| { S })` is written as a match on the callback's result (std semantics of Result::map; Verus has no `_` closure parameters)
 //! trusted: R15 (deep slice): write_version: the body of the closure that fills the temporary file, verbatim as a function of the file (a stub recording the operations applied to it; `&self` methods of std::fs::File written `&mut self`), the buffer and the optional mtime; creating the file, the rename under the key lock and the directory fsync are std::fs calls without an object to carry state and are not sliced
 //! trusted: R15 (deep slice): write_version (taken for a non-Windows target): the body of the closure run under the key's lock, verbatim as a function of a disk stub recording renames and directory flushes (R5: `fs::rename`, `fs::OpenOptions::new().read(true).open(dir)` and `sync_all` on the directory handle are its three methods) and the caller's clean-up flag
+//! trusted: R15 (deep slice): remove_version (taken for a non-Windows target): the body of the closure run under the key's lock, verbatim as a function of a disk stub recording removals and directory flushes (R5: `path.is_file()`, `fs::remove_file`, `path.parent().ok_or_else(..)`, `fs::OpenOptions::new().read(true).open(dir)` and `sync_all` on the directory handle are the stub's methods); the Windows branch is not claimed
 //! trusted: the callback is any `FnOnce() -> Result<(), Error>`: the function may call it only under its precondition, which the contract grants only for a version newer than the recorded one (so "the callback ran" implies "the operation was not stale")
 //! assume: versions are issued in increasing order per key by get_new_version_and_lock_ref (an atomic counter, not verified); concurrency is the lock's (the contract is for the critical section)
 //! trusted: assume_specification for core::cmp::max / core::cmp::min (std definitions): present in every unit so that a change that introduces them is verified instead of being rejected by the tool
@@ -127,5 +128,61 @@ impl Disk {
 //@with
     fs::rename(&tmp_file_path, &dest_file_path)?; tmp_file_needs_cleanup = true;
 //@end
+
+// ---- remove_version, under the key's lock (unix): a removal that must be durable is reported done only after the directory was flushed ----
+pub mod removal {
+use vstd::prelude::*;
+pub struct Error {}
+pub struct PathBuf { pub id: u64, pub parent: Option<u64>, pub exists: bool }
+pub enum DiskOp { Removed(u64), DirSynced(u64) }
+pub struct Disk { pub ops: Ghost<Seq<DiskOp>> }
+pub struct DirFile { pub dir: u64 }
+pub struct Dir { pub id: u64 }
+impl Disk {
+    #[verifier::external_body] pub fn is_file(&self, p: &PathBuf) -> (r: bool) ensures r == p.exists { unimplemented!() }
+    #[verifier::external_body] pub fn remove_file(&mut self, p: &PathBuf) -> (r: Result<(), Error>)
+        ensures r is Ok ==> final(self).ops@ == old(self).ops@.push(DiskOp::Removed(p.id)), r is Err ==> final(self).ops@ == old(self).ops@ { unimplemented!() }
+    #[verifier::external_body] pub fn parent_of(&self, p: &PathBuf) -> (r: Result<Dir, Error>) ensures r is Ok <==> p.parent is Some, r matches Ok(d) ==> Some(d.id) == p.parent { unimplemented!() }
+    #[verifier::external_body] pub fn open_dir(&mut self, dir: &Dir) -> (r: Result<DirFile, Error>) ensures final(self).ops@ == old(self).ops@, r matches Ok(f) ==> f.dir == dir.id { unimplemented!() }
+    #[verifier::external_body] pub fn sync_dir(&mut self, f: &DirFile) -> (r: Result<(), Error>)
+        ensures r is Ok ==> final(self).ops@ == old(self).ops@.push(DiskOp::DirSynced(f.dir)), r is Err ==> final(self).ops@ == old(self).ops@ { unimplemented!() }
+}
+//@extract lightning-persister/src/fs_store/common.rs :: impl FilesystemStoreInner :: fn remove_version
+//@cfg target_os="windows"=false
+//@slice R15
+    self.execute_locked_write(inner_lock_ref, dest_file_path.clone(), version, || { $body:any })
+//@with
+    fn remove_the_key(disk: &mut Disk, dest_file_path: &PathBuf, lazy: bool) -> Result<(), Error> { $body }
+//@rw R5
+    dest_file_path.is_file()
+//@with
+    disk.is_file(dest_file_path)
+//@rw * R5
+    fs::remove_file(&dest_file_path)?;
+//@with
+    disk.remove_file(dest_file_path)?;
+//@rw R5
+    let parent_directory = dest_file_path.parent().ok_or_else(|| { $e:any })?;
+//@with
+    let parent_directory = disk.parent_of(dest_file_path)?;
+//@rw R5
+    let dir_file = fs::OpenOptions::new().read(true).open(parent_directory)?;
+//@with
+    let dir_file = disk.open_dir(&parent_directory)?;
+//@rw R5 ?
+    dir_file.sync_all()?;
+//@with
+    disk.sync_dir(&dir_file)?;
+//@ret r
+//@ensures P C19 removing-a-key-that-is-not-there-succeeds-without-touching-the-disk-and-a-removal-that-must-be-durable-is-reported-done-only-after-the-directory-entry-was-flushed
+    !dest_file_path.exists ==> r is Ok && final(disk).ops@ == old(disk).ops@,
+    dest_file_path.exists && r is Ok && lazy ==> final(disk).ops@ == old(disk).ops@.push(DiskOp::Removed(dest_file_path.id)),
+    dest_file_path.exists && r is Ok && !lazy ==> dest_file_path.parent is Some && final(disk).ops@ == old(disk).ops@.push(DiskOp::Removed(dest_file_path.id)).push(DiskOp::DirSynced(dest_file_path.parent->Some_0)),
+//@mutant removal_reported_done_before_the_directory_is_flushed
+    dir_file.sync_all()?;
+//@with
+
+//@end
+}
 }
 fn main() {}
